@@ -5,6 +5,7 @@ Model: `Model/Prec.lean` (level-by-level recursive descent + left fold), spec:
 from src/syntax/src/expressions.rs on every run (`Gen/PrecLevels.lean`).
 -/
 import MechVerif.Lemmas.Formula
+import MechVerif.Lemmas.Syntax
 import MechVerif.Gen.PrecLevels
 namespace MechVerif.Prec
 
@@ -159,3 +160,44 @@ example : (pForm g7 40 (rTrm g7 demo)).map (fun p => rTrm g7 p.1) = some (rTrm g
 
 end MechVerif.Formula
 
+
+/-! ## formulas over structured operands (Model/Syntax.lean) -/
+namespace MechVerif.Syntax
+open MechVerif.Prec
+
+/-- Whatever the operands of a formula are — literals, names, calls, matrix literals, tuples, sets,
+    subscripted names, parenthesised formulas, prefixed or transposed operands — and wherever the
+    formula stands (a statement, a call argument, a matrix element, a subscript, a range bound),
+    the tree the parser returns is the documented grouping of the operands and operators in text
+    order: operators of the grammar's levels, tighter levels below looser ones, equal levels from
+    the left; and it is the only such tree (`C02_grouping_unique`). -/
+theorem C02_structured_formula_wellgrouped (g : Gram) (n : Nat) (ts : List Tok) (t : Trm) (r : List Tok)
+    (h : pForm g n ts = some (t, r)) :
+    WellGrouped t ∧ OpsIn g.N t.tail ∧ rFac g t.first ++ rRest g t.tail ++ r = ts := by
+  obtain ⟨h1, h2⟩ := pForm_wellgrouped g n ts t r h
+  refine ⟨h1, h2, ?_⟩
+  have := (pr_all g n).2.2.1 ts t r h
+  rw [this, rTrm_flat]
+
+/-- A `-` after a closing bracket continues the formula (it is the subtraction operator), a `-`
+    where an operand is expected is the prefix: `f(a) - b` is one formula of two operands, and in a
+    matrix row `[f(a) -b]` (element separator before the `-`) it starts the second element. -/
+theorem C02_dash_after_bracket (g : Gram) (hs : 1 ≤ g.sub.lvl ∧ g.sub.lvl ≤ g.N) (f a b : Nat) :
+    pForm g 12 [.id f, .lp, .id a, .rp, .dash, .id b] =
+      some (.node (.leaf (.call f [.form (.leaf (.var a))])) g.sub (.leaf (.var b)), []) ∧
+    pFac g 20 [.lb, .id f, .lp, .id a, .rp, .sp, .dash, .id b, .rb] =
+      some (.mat [[.form (.leaf (.call f [.form (.leaf (.var a))])), .form (.leaf (.neg (.var b)))]], []) := by
+  constructor
+  · have h1 := (rt_all g 12).2.2.1 (.node (.leaf (.call f [.form (.leaf (.var a))])) g.sub (.leaf (.var b)))
+      (by simp [costT, costF, costEs, costE])
+      ⟨by simp [WellGrouped, Tree.ops, Tree.tail], by intro x hx; simp [Tree.tail, Tree.first] at hx; subst hx; exact hs,
+       by simp [okL, okF, okEs, okE, WellGrouped, OpsIn, Tree.tail]⟩ [] (by intro t r e; cases e)
+    simp only [rTrm, rFac, rExs, rEx, Gram.opTok, if_true, List.append_nil, List.cons_append, List.nil_append] at h1
+    exact h1
+  · have h2 := (rt_all g 20).1 (.mat [[.form (.leaf (.call f [.form (.leaf (.var a))])), .form (.leaf (.neg (.var b)))]])
+      (by simp [costF, costRows, costEs, costE, costT])
+      (by simp [okF, okRows, okEs, okE, okL, WellGrouped, OpsIn, Tree.tail, Tree.ops]) [] (by intro t r e; cases e)
+    simp only [rFac, rRows, rRow, rExs, rEx, rTrm, List.append_nil, List.cons_append, List.nil_append, List.append_assoc] at h2
+    exact h2
+
+end MechVerif.Syntax
